@@ -25,6 +25,7 @@ import (
 	"github.com/libp2p/go-libp2p/core/network"
 	"github.com/libp2p/go-libp2p/core/peer"
 	"github.com/libp2p/go-libp2p/core/peerstore"
+	"github.com/libp2p/go-libp2p/core/protocol"
 	ma "github.com/multiformats/go-multiaddr"
 	"google.golang.org/protobuf/proto"
 
@@ -69,7 +70,13 @@ type vC13Node struct {
 
 func vC13NewNode(t *testing.T, c *vh.Case, opt ModeOpt, k int) *vC13Node {
 	N := 2 + c.R.Intn(3*k)
-	n := vNewNet(t, c, vNetCfg{N: N, K: k, A: 3, B: 3, Seeds: N, Mode: ModeClient, Opts: []Option{Mode(opt)}})
+	opts := []Option{Mode(opt)}
+	if c.Idx%5 == 3 {
+		// a legacy network: the served protocol id is given outright (it overrides prefix and extension)
+		opts = append(opts, V1ProtocolOverride(protocol.ID(fmt.Sprintf("/legacy-%d/dht", c.Idx%7))))
+		c.Set("v1_protocol_override", true)
+	}
+	n := vNewNet(t, c, vNetCfg{N: N, K: k, A: 3, B: 3, Seeds: N, Mode: ModeClient, Opts: opts})
 	for i, id := range n.IDs {
 		n.H.Peerstore().AddAddrs(id, []ma.Multiaddr{vPeerAddr(i, false)}, peerstore.PermanentAddrTTL)
 	}
@@ -163,7 +170,7 @@ func (nd *vC13Node) closeAll() {
 
 func TestVerif_C13_modes(t *testing.T) {
 	vh.Run(t, vh.Spec{Prop: "C13", Unit: "modes", Quick: 1500, Thorough: 50000, CostMs: 4,
-		Rule:    "PRNG Mode option (auto, client, server, autoserver) x sequence of 1-8 EvtLocalReachabilityChanged events (public/private/unknown) emitted on the host's event bus, synctest.Wait() between steps (one step in five is a burst of 2-4 events emitted back to back: the mode is that of the last one); before each event requests on 0-2 new and on already-open inbound streams (server: answered; client: the host has no handler and a stream dispatched to the DHT handler anyway is reset unanswered); at each event optionally a request racing with it (written just before / just after the emit, on an open stream, on a new stream, or on a stream whose protocol negotiation overlaps the event; no Wait in between); after each event at rest: handler registered <=> mode(last event, option), every inbound stream open at a switch to client has been reset and its handler returned, streams open across a non-switch still serve; non-trivial = at least one real mode switch with open streams or a raced request; distinct by (option, event sequence, race outcomes)",
+		Rule:    "PRNG Mode option (auto, client, server, autoserver; a fifth of the nodes serve a protocol id given by V1ProtocolOverride) x sequence of 1-8 EvtLocalReachabilityChanged events (public/private/unknown) emitted on the host's event bus, synctest.Wait() between steps (one step in five is a burst of 2-4 events emitted back to back: the mode is that of the last one); before each event requests on 0-2 new and on already-open inbound streams (server: answered; client: the host has no handler and a stream dispatched to the DHT handler anyway is reset unanswered); at each event optionally a request racing with it (written just before / just after the emit, on an open stream, on a new stream, or on a stream whose protocol negotiation overlaps the event; no Wait in between); after each event at rest: handler registered <=> mode(last event, option), every inbound stream open at a switch to client has been reset and its handler returned, streams open across a non-switch still serve; non-trivial = at least one real mode switch with open streams or a raced request; distinct by (option, event sequence, race outcomes)",
 		Clauses: []string{"handlers-iff-mode-of-last-event", "server-mode-answers", "client-mode-answers-nothing", "open-streams-reset-on-switch-to-client", "raced-request-answered-or-reset", "fixed-mode-never-changes", "client-mode-stream-handler-returns"}},
 		func(c *vh.Case) {
 			c.Bubble(t, time.Hour, "mode-switch-hang", func(t *testing.T) {
